@@ -13,13 +13,19 @@ pub fn entry() -> crate::Entry {
 
 /// (attribute, number of non-base values)
 pub const ATTRS: [(&str, usize); 20] = [
-    ("font-name", 3), ("font-size", 3), ("bold", 2), ("italic", 1), ("strike", 1), ("underline", 2), ("font-color", 6), ("fill", 4),
-    ("border-left", 3), ("border-right", 3), ("border-top", 3), ("border-bottom", 3), ("border-diagonal", 3),
+    ("font-name", 3), ("font-size", 3), ("bold", 2), ("italic", 1), ("strike", 1), ("underline", 2), ("font-color", 9), ("fill", 6),
+    ("border-left", 5), ("border-right", 3), ("border-top", 3), ("border-bottom", 3), ("border-diagonal", 3),
     ("h-align", 2), ("v-align", 2), ("wrap", 1), ("rotation", 2), ("numfmt", 6), ("locked", 2), ("hidden", 1),
 ];
 
 fn set_border(b: &mut Border, k: usize) {
     match k {
+        3 | 4 => {
+            // thin + red as value 2, differing only in tint
+            b.set_border_style("thin");
+            b.get_color_mut().set_argb("FFFF0000");
+            b.get_color_mut().set_tint(if k == 3 { 0.8 } else { -0.3 });
+        }
         0 => {
             b.set_border_style("thin");
         }
@@ -71,9 +77,22 @@ pub fn apply_var(s: &mut Style, attr: usize, k: usize) {
                 4 => {
                     c.set_indexed(11);
                 }
-                _ => {
+                5 => {
                     c.set_theme_index(4);
                     c.set_tint(0.5);
+                }
+                // near-duplicates that differ only in the tint of a NON-theme colour
+                6 => {
+                    c.set_argb("FF123456");
+                    c.set_tint(0.4);
+                }
+                7 => {
+                    c.set_argb("FF123456");
+                    c.set_tint(-0.25);
+                }
+                _ => {
+                    c.set_indexed(11);
+                    c.set_tint(0.4);
                 }
             }
         }
@@ -89,6 +108,13 @@ pub fn apply_var(s: &mut Style, attr: usize, k: usize) {
             }
             2 => {
                 s.get_fill_mut().get_pattern_fill_mut().set_pattern_type(PatternValues::Gray125);
+            }
+            4 | 5 => {
+                // same solid colour as value 0, differing only in tint
+                let pf = s.get_fill_mut().get_pattern_fill_mut();
+                pf.set_pattern_type(PatternValues::Solid);
+                pf.get_foreground_color_mut().set_argb("FFFFFF00");
+                pf.get_foreground_color_mut().set_tint(if k == 4 { 0.6 } else { -0.5 });
             }
             _ => {
                 let gf = s.get_fill_mut().get_gradient_fill_mut();
